@@ -273,6 +273,29 @@ pub fn run(em: &mut Emit, thorough: bool, seed: u64) {
         emit_src(em, s, "nt=1;kind=corpus-macro-pos");
         emit_macro_pos(em, s, st, "corpus-macro-pos");
     }
+    // nesting up to depth 32 of every bracket kind, balanced and unbalanced by one, and sources
+    // up to 4 KiB
+    for depth in 1..=32usize {
+        for (o, c) in [("(", ")"), ("[", "]"), ("{1: ", "}"), ("f(", ")"), ("x.m(", ")"), ("[", "][0]"), ("-(", ")"), ("!(", ")")] {
+            let inner = "a";
+            let full = format!("{}{}{}", o.repeat(depth), inner, c.repeat(depth));
+            emit_src(em, &full, "nt=1;kind=nesting");
+            emit_src(em, &format!("{}{}{}", o.repeat(depth), inner, c.repeat(depth - 1)), "nt=1;kind=nesting-open");
+            emit_src(em, &format!("{}{}{}", o.repeat(depth - 1), inner, c.repeat(depth)), "nt=1;kind=nesting-close");
+        }
+        let mixed: String = (0..depth).map(|i| ["(", "[", "{1: ", "f("][i % 4]).collect();
+        let mixed_c: String = (0..depth).rev().map(|i| [")", "]", "}", ")"][i % 4]).collect();
+        emit_src(em, &format!("{}a{}", mixed, mixed_c), "nt=1;kind=nesting");
+        let cond = format!("{}a{}", "c ? (".repeat(depth), " : b)".repeat(depth));
+        emit_src(em, &cond, "nt=1;kind=nesting");
+    }
+    for n in [100usize, 255, 256, 500, 1000] {
+        emit_src(em, &(0..n).map(|i| format!("v{}", i % 10)).collect::<Vec<_>>().join(" + "), "nt=1;kind=long");
+        emit_src(em, &format!("[{}]", (0..n).map(|i| i.to_string()).collect::<Vec<_>>().join(", ")), "nt=1;kind=long");
+        emit_src(em, &format!("'{}'", "é".repeat(n)), "nt=1;kind=long");
+        emit_src(em, &format!("{} +", (0..n).map(|i| format!("v{}", i % 10)).collect::<Vec<_>>().join(" * ")), "nt=1;kind=long");
+        emit_src(em, &format!("{}{}", "a".repeat(n), " ".repeat(n)), "nt=1;kind=long");
+    }
     // every macro name with every argument count, as a global and as a receiver call, with
     // identifier and non-identifier first arguments
     for name in ["has", "all", "exists", "exists_one", "existsOne", "map", "filter"] {
